@@ -47,6 +47,36 @@ def orient(b):
     return (x0, y0, x1, y1)
 
 
+# ----------------------------------------------------------------------------
+# the TYPE of the box argument (the values are unchanged)
+# ----------------------------------------------------------------------------
+BOXTYPES = ['tuple-int', 'list-float', 'tuple-np.float32', 'tuple-np.float64', 'tuple-np.int32',
+            'tuple-np.int64', 'ndarray-float32', 'ndarray-float64', 'ndarray-int64', 'mixed']
+
+
+def boxarg(b, typ):
+    """the box b (numbers exactly representable in float32) as an argument of the given type;
+    integer types are replaced by the corresponding float type when a corner is not whole"""
+    whole = all(float(c) == int(c) for c in b)
+    if not whole:
+        typ = {'tuple-int': 'list-float', 'tuple-np.int32': 'tuple-np.float32',
+               'tuple-np.int64': 'tuple-np.float64', 'ndarray-int64': 'ndarray-float32'}.get(typ, typ)
+    if typ == 'tuple-int':
+        return tuple(int(c) for c in b)
+    if typ == 'list-float':
+        return [float(c) for c in b]
+    if typ.startswith('tuple-np.'):
+        t = getattr(np, typ[len('tuple-np.'):])
+        return tuple(t(c) for c in b)
+    if typ.startswith('ndarray-'):
+        return np.array([float(c) for c in b]).astype(typ[len('ndarray-'):])
+    if typ == 'mixed':
+        if whole:
+            return (int(b[0]), np.float32(b[1]), float(b[2]), np.int64(int(b[3])))
+        return (np.float32(b[0]), float(b[1]), np.float64(b[2]), np.float32(b[3]))
+    raise ValueError(typ)
+
+
 def boxes_raw(boxes):
     return C.Raw('[' + '; '.join('(%d,%d,%d,%d)' % tuple(b) for b in boxes) + ']%Z')
 
